@@ -16,12 +16,20 @@ use std::time::{Duration, Instant};
 pub struct PX {
     runs: u64,
     seed: u64,
+    casefile: Option<String>, // the label in flight is written here, so that the parent can attribute a dead process to a case
 }
 
 impl PX {
     pub fn new(cfg: &Value) -> PX {
-        PX { runs: cfg["runs"].as_u64().unwrap_or(5), seed: cfg["seed"].as_u64().unwrap_or(1) }
+        PX { runs: cfg["runs"].as_u64().unwrap_or(5), seed: cfg["seed"].as_u64().unwrap_or(1), casefile: cfg["casefile"].as_str().map(|s| s.to_string()) }
     }
+}
+
+/// per-case knobs beyond the configuration of the engine
+#[derive(Clone, Copy)]
+struct Knobs {
+    deep: usize,    // nesting depth of the middle rule's condition (0 = plain)
+    variant: i64,   // shifts every threshold: a different rule set under the same knowledge-base name and version
 }
 
 fn salience(i: usize, n: usize, pat: u64) -> i32 {
@@ -39,39 +47,7 @@ struct Shared {
     arrivals: HashMap<i32, AtomicUsize>,    // per salience level
 }
 
-fn run_once(n: usize, pat: u64, dis: u64, threads: usize, minper: usize, par: bool, shared: &Arc<Shared>) -> Result<(Vec<(String, bool)>, usize, usize), String> {
-    let kb = KnowledgeBase::new("p");
-    // level sizes (enabled rules) to compute, per rule, how many workers its level will have and whether it closes its chunk
-    let top = (0..n).map(|i| salience(i, n, pat)).max().unwrap_or(0);
-    let enabled = |i: usize| match dis { 1 => (i + 1) % 5 != 0, 2 => salience(i, n, pat) != top || pat == 1 && i % 2 == 0, _ => true };
-    let mut level: HashMap<i32, Vec<usize>> = HashMap::new();
-    for i in 0..n {
-        if enabled(i) {
-            level.entry(salience(i, n, pat)).or_default().push(i);
-        }
-    }
-    for i in 0..n {
-        let s = salience(i, n, pat);
-        let (nw, last) = match level.get(&s) {
-            Some(rs) if enabled(i) => {
-                let c = rs.len().div_ceil(threads.max(1));
-                let pos = rs.iter().position(|&x| x == i).unwrap();
-                (rs.len().div_ceil(c), (pos + 1) % c == 0 || pos + 1 == rs.len())
-            }
-            _ => (0, false),
-        };
-        let arg = if last && nw >= 2 { format!("w{}s{}", nw, s) } else { "w0s0".to_string() };
-        let call = ConditionGroup::single(Condition::with_function("rv".to_string(), vec![arg], Operator::Equal, RV::Boolean(true)));
-        let cmp = ConditionGroup::single(Condition::new("A.x".to_string(), Operator::GreaterThanOrEqual, RV::Integer((i % 7) as i64 + 2)));
-        let mut rule = Rule::new(format!("r{}", i), ConditionGroup::and(call, cmp), vec![ActionType::Set { field: "A.y".to_string(), value: RV::Integer(1) }])
-            .with_salience(s);
-        rule.enabled = enabled(i);
-        kb.add_rule(rule).map_err(|e| e.to_string())?;
-    }
-    let facts = Facts::new();
-    let mut a = HashMap::new();
-    a.insert("x".to_string(), RV::Integer(5));
-    facts.set("A", RV::Object(a));
+fn mk_engine(threads: usize, minper: usize, par: bool, shared: &Arc<Shared>) -> ParallelRuleEngine {
     let mut eng = ParallelRuleEngine::new(ParallelConfig { enabled: par, max_threads: threads, min_rules_per_thread: minper, dependency_analysis: false });
     let sh = shared.clone();
     eng.register_function("rv", move |args: &[RV], _f: &Facts| {
@@ -99,6 +75,59 @@ fn run_once(n: usize, pat: u64, dis: u64, threads: usize, minper: usize, par: bo
         }
         Ok(RV::Boolean(true))
     });
+    eng
+}
+
+#[allow(clippy::too_many_arguments)]
+fn run_once(n: usize, pat: u64, dis: u64, threads: usize, minper: usize, par: bool, shared: &Arc<Shared>, k: Knobs,
+            engine: Option<&ParallelRuleEngine>) -> Result<(Vec<(String, bool)>, usize, usize), String> {
+    let kb = KnowledgeBase::new("p");
+    // level sizes (enabled rules) to compute, per rule, how many workers its level will have and whether it closes its chunk
+    let top = (0..n).map(|i| salience(i, n, pat)).max().unwrap_or(0);
+    let enabled = |i: usize| match dis { 1 => (i + 1) % 5 != 0, 2 => salience(i, n, pat) != top || pat == 1 && i % 2 == 0, _ => true };
+    let mut level: HashMap<i32, Vec<usize>> = HashMap::new();
+    for i in 0..n {
+        if enabled(i) {
+            level.entry(salience(i, n, pat)).or_default().push(i);
+        }
+    }
+    for i in 0..n {
+        let s = salience(i, n, pat);
+        let (nw, last) = match level.get(&s) {
+            Some(rs) if enabled(i) => {
+                let c = rs.len().div_ceil(threads.max(1));
+                let pos = rs.iter().position(|&x| x == i).unwrap();
+                (rs.len().div_ceil(c), (pos + 1) % c == 0 || pos + 1 == rs.len())
+            }
+            _ => (0, false),
+        };
+        let arg = if last && nw >= 2 { format!("w{}s{}", nw, s) } else { "w0s0".to_string() };
+        let call = ConditionGroup::single(Condition::with_function("rv".to_string(), vec![arg], Operator::Equal, RV::Boolean(true)));
+        let cmp = ConditionGroup::single(Condition::new("A.x".to_string(), Operator::GreaterThanOrEqual, RV::Integer((i % 7) as i64 + 2 + k.variant)));
+        let mut cond = ConditionGroup::and(call, cmp);
+        if k.deep > 0 && i == n / 2 {
+            // a block-list conjunction `.. && A.x != 100 && A.x != 101 && ..`, nested to the left as the parser builds it
+            for j in 0..k.deep {
+                cond = ConditionGroup::and(cond, ConditionGroup::single(Condition::new("A.x".to_string(), Operator::NotEqual, RV::Integer(100 + j as i64))));
+            }
+        }
+        let mut rule = Rule::new(format!("r{}", i), cond, vec![ActionType::Set { field: "A.y".to_string(), value: RV::Integer(1) }])
+            .with_salience(s);
+        rule.enabled = enabled(i);
+        kb.add_rule(rule).map_err(|e| e.to_string())?;
+    }
+    let facts = Facts::new();
+    let mut a = HashMap::new();
+    a.insert("x".to_string(), RV::Integer(5));
+    facts.set("A", RV::Object(a));
+    let own;
+    let eng = match engine {
+        Some(e) => e,
+        None => {
+            own = mk_engine(threads, minper, par, shared);
+            &own
+        }
+    };
     let res = eng.execute_parallel(&kb, &facts, false).map_err(|e| e.to_string())?;
     let mut v: Vec<(String, bool)> = res.execution_contexts.iter().map(|c| (c.rule.name.clone(), c.fired)).collect();
     v.sort();
@@ -112,22 +141,37 @@ impl Model for PX {
         let threads = l["threads"].as_u64().unwrap() as usize;
         let minper = l["minper"].as_u64().unwrap() as usize;
         let par = l["par"].as_bool().unwrap();
+        let deep = l["deep"].as_u64().unwrap_or(0) as usize;
+        if let Some(cf) = &self.casefile {
+            let _ = std::fs::write(cf, l.to_string());
+        }
         let mut arrivals = HashMap::new();
         for i in 0..n {
             arrivals.insert(salience(i, n, pat), AtomicUsize::new(0));
         }
         let shared = Arc::new(Shared { mode: AtomicUsize::new(0), tick: AtomicU64::new(self.seed.wrapping_mul(0x2545F4914F6CDD1D) ^ (n as u64) << 20), arrivals });
         // the statement's oracle: the same enabled rules one by one (the engine's own sequential path)
-        let reference = match run_once(n, pat, dis, threads, minper, false, &shared) {
-            Ok(r) => r,
-            Err(e) => return json!({"returned": false, "sequential_path_error": e}),
-        };
+        let k0 = Knobs { deep, variant: 0 };
+        let k1 = Knobs { deep, variant: 2 };
+        let mut refs = vec![];
+        for k in [k0, k1] {
+            match run_once(n, pat, dis, threads, minper, false, &shared, k, None) {
+                Ok(r) => refs.push(r),
+                Err(e) => return json!({"returned": false, "sequential_path_error": e}),
+            }
+        }
+        // first half of the runs: a fresh engine per run; second half: ONE engine reused, alternating between the two
+        // knowledge bases (same name, same version, different thresholds)
+        let reused = mk_engine(threads, minper, par, &shared);
         for r in 0..self.runs {
             shared.mode.store((r % 2) as usize, Ordering::Relaxed);
-            match run_once(n, pat, dis, threads, minper, par, &shared) {
+            let second_half = r >= self.runs / 2;
+            let (k, eng) = if second_half { (if (r / 1) % 2 == 0 { k0 } else { k1 }, Some(&reused)) } else { (k0, None) };
+            let reference = &refs[if k.variant == 0 { 0 } else { 1 }];
+            match run_once(n, pat, dis, threads, minper, par, &shared, k, eng) {
                 Ok(got) => {
-                    if got != reference {
-                        return json!({"returned": true, "same_as_sequential": false, "run": r,
+                    if got != *reference {
+                        return json!({"returned": true, "same_as_sequential": false, "run": r, "engine_reused": second_half, "variant": k.variant,
                             "sequential": {"evaluated": reference.1, "fired": reference.2, "rules": reference.0.len()},
                             "parallel": {"evaluated": got.1, "fired": got.2, "rules": got.0.len(),
                                          "missing": reference.0.iter().filter(|x| !got.0.contains(x)).count(),
